@@ -181,6 +181,7 @@ type c31Runner struct {
 	w, r                 *network.SecureAead
 	link                 *c31Link
 	sent, recv           []byte
+	nframes              int // conn.Write calls of this session (frames sent in this direction)
 	limit                int // -1: untampered; else max number of plaintext bytes that may still be delivered in total
 }
 
@@ -269,6 +270,7 @@ func (c *c31Runner) Step(t []string, o *Oracle) string {
 		}
 		c.sent = append(c.sent, data...)
 		fr := c.link.frames[k:]
+		c.nframes += len(fr)
 		for i := range fr {
 			c.link.plens[k+i] = len(fr[i]) - 4 - c.w.VerifC31Overhead()
 		}
@@ -310,6 +312,12 @@ func (c *c31Runner) Step(t []string, o *Oracle) string {
 		}
 		if c.closed {
 			return "closed"
+		}
+		switch {
+		case c.nframes > 65536:
+			o.Count("session-over-65536-frames")
+		case c.nframes > 256:
+			o.Count("session-over-256-frames")
 		}
 		start := len(c.recv)
 		st := "stuck"
@@ -638,7 +646,51 @@ func c31BigSession(g *Gen, n int) {
 	g.Emit("fin %d", g.Pick(512, 1024, 4096, 70000, 1+g.Intn(2000)))
 }
 
+// c31LongSessions: more than 256 (thorough: more than 65536) frames in ONE direction on ONE
+// connection, so that the nonce counter carries into its second (third) byte on both ends.
+func c31LongSessions(g *Gen) {
+	suites := []string{"toy", []string{"chacha", "aes128", "aes256"}[g.Intn(3)]}
+	for _, suite := range suites {
+		// one Write of 300+ frames
+		_, kl, _ := c31Suite(suite)
+		if suite == "toy" {
+			kl = 16
+		}
+		g.Emit("reset")
+		g.Emit("init %s %s", suite, hx(g.Bytes(kl)))
+		g.Emit("w %s", hx(g.Bytes(300*1024+g.Intn(40*1024))))
+		g.Emit("r %d", c31BufSize(g))
+		g.Emit("fin %d", g.Pick(1024, 4096, 70000, 1000+g.Intn(3000)))
+	}
+	// 300+ small writes, reads interleaved
+	suite, key := c31GenKey(g)
+	g.Emit("reset")
+	g.Emit("init %s %s", suite, hx(key))
+	n := 300 + g.Intn(60)
+	for k := 0; k < n; k++ {
+		g.Emit("w %s", hx(g.Bytes(1+g.Intn(5))))
+		if g.Intn(3) == 0 {
+			g.Emit("r %d", g.Pick(1, 2, 16))
+		}
+	}
+	g.Emit("fin %d", g.Pick(3, 64, 4096))
+	g.Emit("reset")
+	g.Emit("pipe %s %s %d %d", "aes256", hx(g.Bytes(32)), 300*1024+g.Intn(5000), g.Pick(1024, 4096, 70000))
+	if g.Tier == "thorough" {
+		// 70 000 one-frame writes, each drained at once (keeps the in-flight queue short)
+		suite, key := c31GenKey(g)
+		g.Emit("reset")
+		g.Emit("init %s %s", suite, hx(key))
+		for k := 0; k < 70000; k++ {
+			g.Emit("w %s", hx(g.Bytes(1+g.Intn(2))))
+			g.Emit("r %d", g.Pick(2, 4, 16))
+		}
+		g.Emit("fin 16")
+	}
+}
+
 func c31Gen(g *Gen) {
+	c31LongSessions(g)
 	// every run (quick included): single writes of 65535 / >= 65536 bytes, also over net.Pipe
 	c31BigSession(g, 65535)
 	c31BigSession(g, g.Pick(65536, 65537, 131072, 65536+g.Intn(70000)))
